@@ -173,6 +173,9 @@ fn run_handle(s: &mut cfb::Stream<crate::backend::Io>, script: &[HOp], st: &mut 
 pub fn run_blind(c: &mut Cfb, script: &[BOp], st: &mut BlindStats, trace: &mut Vec<String>) -> Result<(), Fail> {
     for op in script {
         trace.push(format!("{:?}", op).chars().take(200).collect());
+        if std::env::var("VERIF_DEBUG").is_ok() {
+            eprintln!("BOP {}", trace.last().unwrap());
+        }
         st.calls += 1;
         match op {
             BOp::Walk => {
